@@ -239,6 +239,14 @@ pub fn op(st: &mut ChunkSt, toks: &[&str]) -> Option<String> {
                 Err(_) => "reject".into(),
             }
         }
+        ["spec.seq", data] => {
+            let data = parse_bytes(data)?;
+            let mut rd = RefDecoder::new(false);
+            match rd.decode_all(&data) {
+                Ok(ms) if !rd.seq_violation => format!("seq n={}", ms.len()),
+                _ => "noseq".into(),
+            }
+        }
         _ => return None,
     })
 }
